@@ -15,7 +15,7 @@ import (
 var recordTops = []string{"Inner", "Prims", "Opts", "Dflt", "Coll", "WithU", "Incl", "Incl2", "Rec", "Big", "IX", "IY"}
 
 // C06 also reads the record-typed-default family (DEmp) and the WIDE record (70 required fields, 36 through an include)
-var c06Tops = append(append([]string{}, recordTops...), "DEmp", "Wide")
+var c06Tops = append(append([]string{}, recordTops...), "DEmp", "Wide", "Alias", "Alias2", "D1")
 
 // delete / null / permute / inject on a conforming document
 func mutateDoc(s *Schema, t RType, d *Doc, r *hx.Rand, allowNull bool) (*Doc, string) {
@@ -500,6 +500,14 @@ func runC06(cfg *hx.Config) {
 				case len(want) > 0 && strings.Join(oc.Fields, "|") != strings.Join(want, "|"):
 					rep.Fail("missing:wrong-set:"+reader, "the reported set of missing fields differs from the absent required fields", site, cd, oc.Fields)
 				}
+				if (oc.Class == "ok" || oc.Class == "missing") && got != nil && !hasDupKeysDoc(d) {
+					var lost []string
+					schema.presentLost(t, d, got, "", &lost)
+					if len(lost) > 0 {
+						cd["lost"] = lost
+						rep.Fail("missing:present-field-lost:"+reader, "a field that is present in the document is not set in the returned value", site, cd, lost)
+					}
+				}
 				if len(want) > 0 && k < 3 {
 					rep.Sample(cd)
 				}
@@ -513,6 +521,89 @@ func runC06(cfg *hx.Config) {
 	sh.Close()
 	rep.Shards = sh.Files
 	rep.Write(cfg.Out)
+}
+
+// the value of field k of record `name` in v (own fields first, then through the includes), and whether the record has such a field
+func (s *Schema) fieldVal(name string, v *Val, k string) (*Val, bool) {
+	n := s.Types[name]
+	if v == nil {
+		return nil, false
+	}
+	for i, f := range n.Fields {
+		if f.Name == k {
+			return v.Fields[i], true
+		}
+	}
+	for i, inc := range n.Includes {
+		if i < len(v.Incs) {
+			if x, ok := s.fieldVal(inc, v.Incs[i], k); ok {
+				return x, true
+			}
+		}
+	}
+	return nil, false
+}
+
+// "still returns every field that was present": every non-null member of the document that is a field of the record at that
+// position must be set in the decoded value (walks records, arrays and maps like missingSpec; independent of the decoders)
+func (s *Schema) presentLost(t RType, d *Doc, got *Val, path string, out *[]string) {
+	if d == nil || got == nil {
+		return
+	}
+	switch {
+	case t.Primitive != "":
+		// a present integer / boolean / string member must come back with the document's content (a lost member of a
+		// required, value-typed field shows as the zero value, not as nil)
+		switch {
+		case (got.K == "int" || got.K == "long") && d.Kind == "int" && got.Z != d.Z && d.Z > -(1<<53) && d.Z < 1<<53, // beyond 2^53 the untyped reader goes through encoding/json's float64
+			got.K == "bool" && d.Kind == "bool" && got.B != d.B,
+			got.K == "str" && d.Kind == "str" && got.S != d.S:
+			*out = append(*out, path)
+		}
+	case t.Array != nil:
+		if d.Kind != "arr" || len(got.Items) != len(d.Items) {
+			return
+		}
+		for i, x := range d.Items {
+			s.presentLost(*t.Array, x, got.Items[i], fmt.Sprintf("%s[%d]", path, i), out)
+		}
+	case t.Map != nil:
+		if d.Kind != "obj" {
+			return
+		}
+		for i, x := range d.Items {
+			for j, k := range got.Keys {
+				if k == d.Keys[i] && x.Kind != "null" && j < len(got.Items) {
+					s.presentLost(*t.Map, x, got.Items[j], joinPath(path, k), out)
+				}
+			}
+		}
+	default:
+		n := s.Types[t.Reference.Name]
+		if n.Kind != "record" || d.Kind != "obj" {
+			return
+		}
+		seen := map[string]bool{}
+		for i, k := range d.Keys {
+			if d.Items[i].Kind == "null" || seen[k] {
+				continue
+			}
+			seen[k] = true
+			ft, ok := s.fieldType(n.Name, k)
+			if !ok {
+				continue
+			}
+			fv, has := s.fieldVal(n.Name, got, k)
+			if !has {
+				continue
+			}
+			if fv == nil {
+				*out = append(*out, joinPath(path, k))
+				continue
+			}
+			s.presentLost(ft, d.Items[i], fv, joinPath(path, k), out)
+		}
+	}
 }
 
 // readers WITH excluded fields: a required field that is excluded and absent is not reported and does not disturb what is read after it
@@ -616,4 +707,25 @@ func runC06Excl(cfg *hx.Config, rep *hx.Report, sh *hx.Shards, r *hx.Rand) {
 			}
 		}
 	}
+}
+
+func hasDupKeysDoc(d *Doc) bool {
+	if d == nil {
+		return false
+	}
+	if d.Kind == "obj" {
+		seen := map[string]bool{}
+		for _, k := range d.Keys {
+			if seen[k] {
+				return true
+			}
+			seen[k] = true
+		}
+	}
+	for _, x := range d.Items {
+		if hasDupKeysDoc(x) {
+			return true
+		}
+	}
+	return false
 }
